@@ -117,7 +117,7 @@ class C14(Prop):
     REAL_VS_STUB = {'real': ['dataflows set_type / validate / schema_validator, tableschema casts'], 'stub': ['corrupt-cell injector between source and step', 'logging custom handlers answering by a seeded pattern']}
     PROBES = ['two-sites-in-one-row', 'site-in-first-row', 'site-in-last-row', 'required-null', 'regex-multi-field', 'resources-selected', 'transform', 'constraint-minimum', 'date-format',
               'failing-field-followed-by-lexical-field', 'set_type-without-type-argument', 'equal-values-of-different-python-types'] + ['policy:' + p for p in POLICIES]
-    TIERS = {'quick': dict(runs=2000, wall=100, run_wall=300),
+    TIERS = {'quick': dict(runs=3000, wall=100, run_wall=300),
              'thorough': dict(runs=60000, wall=1700, run_wall=600)}
     SHRINK_FROZEN = ('fields',)
 
